@@ -196,7 +196,7 @@ def cases(tier, rng, dist, focus=None):
                "x": [rng.choice([rng.randint(-4, 4), round(rng.gauss(0, 1), 3)]) for _ in range(nx)],
                "y": [rng.choice([rng.randint(-4, 4), round(rng.gauss(0, 1), 3)]) for _ in range(ny)],
                "stat": rng.choice(["mean", "t"]), "alt": rng.choice(ALTS), "reps": rng.randint(1, 12), "plus1": rng.random() < 0.5,
-               "seed": rng.randint(0, 10**6), "gseed": rng.randint(0, 10**6)}
+               "seed": real_seed(rng), "gseed": rng.randint(0, 10**6)}
 
 
 # every (f, finverse) pair handed to the library comes from these two factories, so that valid and invalid pairs
@@ -384,13 +384,13 @@ def run_real(c):
     one("int1", lambda: c["seed"], c["gseed"])
     one("int2", lambda: c["seed"], c["gseed"] + 1)
     one("sha", lambda: SHA256(c["seed"]), c["gseed"] + 2)
-    one("rs1", lambda: np.random.RandomState(c["seed"]), c["gseed"] + 3)
-    one("rs2", lambda: np.random.RandomState(c["seed"]), c["gseed"] + 4)
+    one("rs1", lambda: np.random.RandomState(c["seed"] % 2**32), c["gseed"] + 3)
+    one("rs2", lambda: np.random.RandomState(c["seed"] % 2**32), c["gseed"] + 4)
     if c["fn"] in ("two_sample", "two_sample_shift", "one_sample", "k_sample"):
         one("nokeep", lambda: c["seed"], c["gseed"] + 5, keep=False)
     if c["fn"] in ("two_sample", "one_sample"):
         # every generator type: what the statistic receives must be an admissible rearrangement of the data
-        for tag, mk in (("rec_rs", lambda: np.random.RandomState(c["seed"])), ("rec_int", lambda: c["seed"])):
+        for tag, mk in (("rec_rs", lambda: np.random.RandomState(c["seed"] % 2**32)), ("rec_int", lambda: c["seed"])):
             rec = []
             x = np.array(c["x"], dtype=float); y = np.array(c["y"], dtype=float)
             if c["fn"] == "two_sample":
